@@ -185,7 +185,8 @@ def gen_tree(rng, big=False, base=None):
     base = BASE if base is None else base
     entries = []
     chans = []
-    names = ["ch0", "ch1", "grp/chA", "grp/chB", "deep/er/ch", "ch0/metadata", "ch1/metadata", "legacy", "plain", "ch10"]
+    names = ["ch0", "ch1", "grp/chA", "grp/chB", "deep/er/ch", "ch0/metadata", "ch1/metadata", "legacy", "plain", "ch10",
+             "rx north"]
     for name in rng.sample(names, rng.randrange(2, 6 if not big else 8)):
         kind = rng.choice(["drf", "drf", "dmd", "legacy", "none", "both"])
         if name.endswith("/metadata"):
@@ -216,7 +217,7 @@ def gen_tree(rng, big=False, base=None):
             for _ in range(nf):
                 ms = (sub + rng.randrange(0, 100)) * 1000 + rng.choice([0, 0, 250, 500, 999])
                 if kind in ("dmd",) or (kind in ("legacy", "both") and rng.random() < 0.5):
-                    fn = "%s@%d.h5" % (rng.choice(["md", "metadata"]), ms // 1000)
+                    fn = "%s@%d.h5" % (rng.choice(["md", "metadata", "tmpsensor"]), ms // 1000)
                 else:
                     fn = "rf@%d.%03d.h5" % (ms // 1000, ms % 1000)
                 entries.append({"p": sdp + "/" + fn, "t": "f"})
